@@ -2,6 +2,8 @@ package main
 
 import (
 	"fmt"
+	"go/token"
+	"go/types"
 	"strings"
 
 	"golang.org/x/tools/go/ssa"
@@ -124,4 +126,212 @@ func (c *Ctx) ruleTriedb() {
 			}
 		}
 	}
+}
+
+// R-CURSOR: fix() is handed the key position of the branch itself, not a cursor that was advanced past it.
+func (c *Ctx) ruleFixCursor() {
+	sp := c.ssaPkg(triedbDir)
+	if sp == nil {
+		return
+	}
+	c.doc("R-CURSOR", "pkg/trie/triedb: the key handed to fix(branch, key) is the position of that branch: no Advance() on the same *Nibbles value can execute before the call (the cursor passed down to the child is a different object). fix derives the database prefix of the branch's remaining child from it; an advanced cursor makes it panic or look the child up under a wrong prefix")
+	n := 0
+	perFn := map[*ssa.Function]int{}
+	for _, f := range allFuncs(c, sp) {
+		eachInstr(f, func(_ *ssa.BasicBlock, _ int, in ssa.Instruction) {
+			call, ok := in.(*ssa.Call)
+			if !ok {
+				return
+			}
+			cal := call.Call.StaticCallee()
+			if cal == nil || !strings.HasPrefix(cal.Name(), "fix") || len(call.Call.Args) < 3 || cal.Pkg != sp && (cal.Origin() == nil || cal.Origin().Pkg != sp) {
+				return
+			}
+			key := call.Call.Args[2]
+			n++
+			perFn[f]++
+			bad := ""
+			for _, r := range *key.Referrers() {
+				adv, ok := r.(*ssa.Call)
+				if !ok || adv == call || len(adv.Call.Args) == 0 || adv.Call.Args[0] != key {
+					continue
+				}
+				if ac := adv.Call.StaticCallee(); ac != nil && ac.Name() == "Advance" && instrReaches(adv, call) {
+					bad = c.pos(adv.Pos())
+				}
+			}
+			c.ob("R-CURSOR", fmt.Sprintf("%s:fix-key#%d", shortFn(f), perFn[f]), call.Pos(), bad == "",
+				shortFn(f)+" advances the key cursor (at "+bad+") and then hands the SAME *Nibbles to fix(): `prefix := keyNibbles` copies the pointer, not the position, so fix sees a key that is already past the branch — deleting a key whose branch is left with a single child panics (not enough nibbles) or fails to load the sibling")
+		})
+	}
+	if n == 0 {
+		c.ob("R-CURSOR", "fix-call", token.NoPos, false, "no call of fix found (anchor changed)")
+	}
+}
+
+// R-FRESHBASE: append() never grows a slice that aliases the caller's key buffer.
+func (c *Ctx) ruleFreshAppendBase() {
+	c.doc("R-FRESHBASE", "pkg/trie/triedb: whenever the base of an append() is the direct result of a module function (the database key is built as append(prefix.JoinedBytes(), hash...)), that function returns a freshly allocated slice on every path (make, Clone, or an append onto a fresh base) — a sub-slice of the key buffer with spare capacity would be overwritten in place: the caller's key is replaced by a node hash and the value is stored under a garbled key")
+	sp := c.ssaPkg(triedbDir)
+	if sp == nil {
+		return
+	}
+	var fresh func(v ssa.Value, depth int) bool
+	fresh = func(v ssa.Value, depth int) bool {
+		if depth > 6 {
+			return false
+		}
+		switch x := v.(type) {
+		case *ssa.Const:
+			return true // nil
+		case *ssa.MakeSlice:
+			return true
+		case *ssa.Convert:
+			_, fromString := x.X.Type().Underlying().(*types.Basic)
+			return fromString
+		case *ssa.Slice:
+			// a re-slice of a fresh slice is still private
+			return fresh(x.X, depth+1)
+		case *ssa.Phi:
+			for _, e := range x.Edges {
+				if !fresh(e, depth+1) {
+					return false
+				}
+			}
+			return true
+		case *ssa.Call:
+			if b, ok := x.Call.Value.(*ssa.Builtin); ok && b.Name() == "append" {
+				return fresh(x.Call.Args[0], depth+1)
+			}
+			nm := calleeName(&x.Call)
+			if strings.Contains(nm, "slices.Clone") || nm == "bytes.Clone" || nm == "bytes.Join" || nm == "bytes.Repeat" {
+				return true
+			}
+		}
+		return false
+	}
+	returnsFresh := func(g *ssa.Function) (bool, string) {
+		if g != nil && g.Origin() != nil {
+			g = g.Origin()
+		}
+		if g == nil || len(g.Blocks) == 0 {
+			return false, "no body"
+		}
+		for _, r := range returnsOf(g) {
+			if len(r.Results) == 0 {
+				return false, "no result"
+			}
+			if !fresh(resultOf(r, 0), 0) {
+				return false, c.pos(r.Pos())
+			}
+		}
+		return true, ""
+	}
+	n := 0
+	verdict := map[*ssa.Function]string{}
+	for _, f := range allFuncs(c, sp) {
+		eachInstr(f, func(_ *ssa.BasicBlock, _ int, in ssa.Instruction) {
+			call, ok := in.(*ssa.Call)
+			if !ok {
+				return
+			}
+			if b, ok := call.Call.Value.(*ssa.Builtin); !ok || b.Name() != "append" {
+				return
+			}
+			base, ok := call.Call.Args[0].(*ssa.Call)
+			if !ok {
+				return
+			}
+			g := base.Call.StaticCallee()
+			if g == nil || g.Pkg == nil || !strings.HasPrefix(g.Pkg.Pkg.Path(), modPath) {
+				return
+			}
+			n++
+			if _, done := verdict[g]; !done {
+				ok, where := returnsFresh(g)
+				verdict[g] = where
+				if ok {
+					verdict[g] = ""
+				}
+				c.ob("R-FRESHBASE", relName(g.String())+":returns-fresh-slice", g.Pos(), ok,
+					relName(g.String())+" can return a slice that aliases its receiver's buffer (return at "+where+"), and its result is the base of append() calls that build database keys: with spare capacity the append overwrites the caller's key bytes in place")
+			}
+		})
+	}
+	c.ob("R-FRESHBASE", "scan", token.NoPos, n >= 5, fmt.Sprintf("%d append(f(...), ...) sites in pkg/trie/triedb examined, %d distinct callees", n, len(verdict)))
+}
+
+// R-VALUECOPY: a mutating pointer-method is not applied to a by-value copy whose result is then dropped.
+func (c *Ctx) ruleValueCopyMutator(rule, dir string) {
+	sp := c.ssaPkg(dir)
+	if sp == nil {
+		return
+	}
+	c.doc(rule, dir+": a struct received BY VALUE (parameter) or copied out of a field is not mutated through a pointer-receiver method whose effect is then dropped: after the mutating call the copy must be read, passed on, returned or stored — otherwise the mutation (e.g. a node allocated in a copy of the node storage) never reaches the owner and the handle it returned dangles")
+	mutates := func(g *ssa.Function) bool {
+		if g != nil && g.Origin() != nil {
+			g = g.Origin() // instantiation (wrapper) of a generic function/method: the body lives in the origin
+		}
+		if g == nil || len(g.Blocks) == 0 || len(g.Params) == 0 {
+			return false
+		}
+		m := false
+		eachInstr(g, func(_ *ssa.BasicBlock, _ int, in ssa.Instruction) {
+			if st, ok := in.(*ssa.Store); ok {
+				if fa, ok := st.Addr.(*ssa.FieldAddr); ok && fa.X == ssa.Value(g.Params[0]) {
+					m = true
+				}
+			}
+		})
+		return m
+	}
+	n, copies := 0, 0
+	for _, f := range allFuncs(c, sp) {
+		eachInstr(f, func(_ *ssa.BasicBlock, _ int, in ssa.Instruction) {
+			al, ok := in.(*ssa.Alloc)
+			if !ok {
+				return
+			}
+			if _, isStruct := al.Type().Underlying().(*types.Pointer).Elem().Underlying().(*types.Struct); !isStruct {
+				return
+			}
+			var init *ssa.Store
+			for _, r := range *al.Referrers() {
+				if st, ok := r.(*ssa.Store); ok && st.Addr == ssa.Value(al) {
+					if _, isParam := st.Val.(*ssa.Parameter); isParam {
+						init = st
+					}
+					if _, isFV := st.Val.(*ssa.FreeVar); isFV {
+						init = st
+					}
+				}
+			}
+			if init == nil {
+				return
+			}
+			copies++
+			for _, r := range *al.Referrers() {
+				mcall, ok := r.(*ssa.Call)
+				if !ok || len(mcall.Call.Args) == 0 || mcall.Call.Args[0] != ssa.Value(al) || !mutates(mcall.Call.StaticCallee()) {
+					continue
+				}
+				n++
+				consumed := false
+				for _, r2 := range *al.Referrers() {
+					if r2 == ssa.Instruction(init) || r2 == ssa.Instruction(mcall) {
+						continue
+					}
+					if _, isDbg := r2.(*ssa.DebugRef); isDbg {
+						continue
+					}
+					if instrReaches(mcall, r2) {
+						consumed = true
+					}
+				}
+				c.ob(rule, fmt.Sprintf("%s:%s.%s#%d", relName(f.String()), al.Comment, mcall.Call.StaticCallee().Name(), n), mcall.Pos(), consumed,
+					fmt.Sprintf("%s calls the mutating method %s on `%s`, a by-value COPY of its caller's struct, and never uses the copy again: the mutation is lost to the owner (the value it returned refers to state that no longer exists)", shortFn(f), mcall.Call.StaticCallee().Name(), al.Comment))
+			}
+		})
+	}
+	c.ob(rule, "scan", token.NoPos, true, fmt.Sprintf("%d by-value struct copies examined, %d mutating calls on them", copies, n))
 }
